@@ -14,6 +14,7 @@ CONSTANTS
   Dev_AwaitIsYield = FALSE
   Dev_ThrowIsYield = FALSE
   Dev_Resample = FALSE
+  Dev_AgenWrapped = FALSE
 CONSTRAINT DepthOK
 VIEW View
 INVARIANT ExactlyOnceInOrder
